@@ -82,9 +82,11 @@ pub fn input_get(push_state: &mut PushState, _instruction_cache: &InstructionCac
         let input_size = push_state.input_stack.size();
         if input_size > 0 {
             if let Some(input) = push_state.input_stack.peek_oldest() {
-                let list_index =
-                    i32::max(i32::min(input.body.values.len() as i32 - 1, index), 0) as usize;
-                push_state.bool_stack.push(input.body.values[list_index]);
+                if input.body.values.len() > 0 {
+                    let list_index =
+                        i32::max(i32::min(input.body.values.len() as i32 - 1, index), 0) as usize;
+                    push_state.bool_stack.push(input.body.values[list_index]);
+                }
             }
         }
     }
